@@ -24,9 +24,17 @@
     * `WellFormedText`  (`s.textOk`)  recorded finding C08/lone-surrogate-dropped is its complement.
     * `IntsFitInt64`    (`s.intsFit`) recorded finding C08/attr-int-out-of-range-dropped is its complement.
   Each of the two findings has a `decide`d witness showing the snapshot IS dropped without the hypothesis.
-  "Survives serialisation" has no theorem: the protobuf runtime is trusted for it (and exercised on every case).
+  "Survives serialisation" (section `the wire`): a Lean model of the protobuf wire format (varint, fixed64, length-
+  delimited, records, strict UTF-8: `Model/WireBytes.lean`) with one codec per message GENERATED from the installed
+  descriptors (`Extracted/WireCodec.lean`); `decode (encode m) = some m` for every message protobuf accepts — any number
+  of frames / entries / attributes, any text, attribute values nested to any depth (`c08_wire_snapshot`,
+  `c08_wire_anyvalue`, `c08_wire_pollrequest`), and end to end from the snapshot (`c08_survives_serialisation`).
+  The model's bytes are compared with the real runtime's on every generated case (both directions).  Trusted: that
+  the RECEIVING runtime parses as the model's decoder does (exercised with the local upb runtime only).
+  `FloatsAre64Bit` (`s.floatsOk`) is a typing condition of the model, which carries a float's bit pattern as a `Nat`.
 -/
-import DeepModel.Proofs.Wire
+import DeepModel.Proofs.WireSent
+import DeepModel.Proofs.WireB64
 
 set_option linter.unusedSimpArgs false
 
@@ -233,7 +241,107 @@ theorem c08_resource (a : BoundedAttributes) (h : attrsAll PyVal.holdable a.item
     exact ⟨project_attrs a.items h, rfl⟩
   · cases hr
 
+/-! ### the wire: "…and survives serialisation" -/
+
+/-- model lemma: varint — every natural number is read back, whatever follows it in the stream -/
+theorem c08_wire_varint (n : Nat) (rest : Bytes) : decVarint (encVarint n ++ rest) = some (n, rest) :=
+  decVarint_enc n rest
+
+/-- model lemma: records — every stream of well-formed records (field number ≥ 1, fixed-width payloads in range; any
+    number of records, any payload bytes) is split back into exactly those records -/
+theorem c08_wire_records (rs : List Rec) (h : ∀ r ∈ rs, r.ok = true) : decRecs (encRecs rs) = some rs :=
+  decRecs_enc rs h
+
+/-- model lemma: strict UTF-8 — every text without a surrogate code point (any length, any planes) is read back -/
+theorem c08_wire_utf8 (t : Text) (h : t.ok = true) : utf8Dec (utf8Enc t) = some t :=
+  utf8Dec_enc t h
+
+/-- tripwire: the field numbers, types and labels the codecs were generated from, for the three messages whose
+    numbers are spelled out in the hand-proved recursive codec (AnyValue, ArrayValue, KeyValueList) and for Snapshot -/
+theorem c08_wire_schema :
+    (wireSchema.lookup "AnyValue" == some [(1, "string_value", "string", "oneof:value"), (2, "bool_value", "bool", "oneof:value"),
+      (3, "int_value", "int64", "oneof:value"), (4, "double_value", "double", "oneof:value"),
+      (5, "array_value", "message:ArrayValue", "oneof:value"), (6, "kvlist_value", "message:KeyValueList", "oneof:value"),
+      (7, "bytes_value", "bytes", "oneof:value")]) = true ∧
+    (wireSchema.lookup "ArrayValue" == some [(1, "values", "message:AnyValue", "repeated")]) = true ∧
+    (wireSchema.lookup "KeyValueList" == some [(1, "values", "message:KeyValue", "repeated")]) = true ∧
+    ((wireSchema.lookup "Snapshot").map (fun fs => fs.map (fun f => (f.1, f.2.1))) ==
+      some [(1, "ID"), (2, "tracepoint"), (3, "var_lookup"), (4, "ts_nanos"), (5, "frames"), (6, "watches"),
+            (7, "attributes"), (8, "duration_nanos"), (9, "resource"), (10, "log_msg")]) = true := by
+  decide
+
+/-- **attribute values survive**: every AnyValue protobuf accepts — strings, bools, int64, doubles, bytes, arrays and
+    key-value lists NESTED TO ANY DEPTH, empty values inside arrays — is read back from its bytes exactly -/
+theorem c08_wire_anyvalue (v : PAnyValue) (Accepted : v.accepts = true) (DoublesAre64Bit : v.bitsOk = true)
+    (IsAMessage : v ≠ .pyNone) : decAny (encRecs (encAny v)) = some v :=
+  rt_AnyValue v Accepted DoublesAre64Bit IsAMessage
+
+/-- **a snapshot message survives**: for every Snapshot message protobuf accepts (any number of frames, table
+    entries, children, watches, attributes; any well-formed text; every optional field set or unset) that is a
+    message at all (`wireOk`: a watch holds ONE member of its oneof, doubles are 64-bit patterns), decoding its bytes
+    gives back exactly that message — codec generated from the installed descriptors -/
+theorem c08_wire_snapshot (m : PSnapshot) (Accepted : m.accepts = true) (IsAMessage : m.wireOk = true) :
+    decSnapshot (encRecs (encSnapshot m)) = some m :=
+  rt_Snapshot m Accepted IsAMessage
+
+/-- …and so does every poll request (time stamp, hash, resource with its attributes and dropped count) -/
+theorem c08_wire_pollrequest (m : PPollRequest) (Accepted : m.accepts = true) (IsAMessage : m.wireOk = true) :
+    decPollRequest (encRecs (encPollRequest m)) = some m :=
+  rt_PollRequest m Accepted IsAMessage
+
+/-- **…and survives serialisation** — end to end: whenever `convert_snapshot` produces a message for a collectable
+    snapshot, the bytes of that message decode to a message that reads back as exactly the snapshot: id, tracepoint,
+    time stamp, duration, every frame, every table entry with children and truncation flag, every watch with result
+    or error and source, attributes, resource, log message.  No hypothesis on text or integers: what cannot be
+    encoded is not produced (`convertSnapshot s = none`, the two recorded findings). -/
+theorem c08_survives_serialisation (s : EventSnapshot) (Collectable : s.collectable = true)
+    (FloatsAre64Bit : s.floatsOk = true) (m : PSnapshot) (h : convertSnapshot s = some m) :
+    (decSnapshot (encRecs (encSnapshot m))).map projectSnapshot = some s := by
+  unfold convertSnapshot at h
+  simp only at h
+  split at h
+  · rename_i hacc
+    cases h
+    rw [rt_Snapshot _ hacc (wireOk_snapshot Collectable FloatsAre64Bit)]
+    simp [project_snapshot Collectable]
+  · cases h
+
+/-- non-vacuity: the witness snapshot with a nested tuple attribute and a float satisfies every hypothesis of
+    `c08_survives_serialisation` and IS converted, so the theorem speaks about its bytes -/
+theorem c08_survives_nonvacuous :
+    let s := witness (.tuple (.cons (.str (Text.ofString "é")) (.cons .none (.cons (.float 0x3FE0000000000000) .nil))))
+      (Text.ofString "fn")
+    s.collectable = true ∧ s.floatsOk = true ∧ (convertSnapshot s).isSome = true ∧
+      ((convertSnapshot s).map (fun m => m.accepts && m.wireOk)) = some true := by
+  decide
+
+example : (PAnyValue.array_value (.cons (.kvlist_value (.cons [107] (.array_value (.cons .empty .nil)) .nil))
+    (.cons (.int_value (-1)) .nil))).accepts = true := by decide
+
 /-! ### auth -/
+
+/-- model lemma: base64 — every byte string of any length is recovered from its padded encoding -/
+theorem c08_base64_roundtrip (bs : List Nat) (h : bytesOk bs = true) : b64decode (b64encode bs).toList = some bs :=
+  b64_roundtrip bs h
+
+/-- **the basic-auth header**: with both credentials configured the provider (translated `BasicAuthProvider.provide`)
+    supplies exactly one pair, `authorization: Basic%20<base64>`, and decoding that base64 gives back exactly the
+    UTF-8 bytes of `username:password` — for every user name and password (empty, containing `:`, non-ASCII, any
+    length); with either credential missing it supplies nothing -/
+theorem c08_basic_auth_header (u p : String) :
+    basicProvide (some u) (some p) = [("authorization", "Basic%20" ++ b64encode (utf8 (u ++ ":" ++ p)))] ∧
+    b64decode (b64encode (utf8 (u ++ ":" ++ p))).toList = some (utf8 (u ++ ":" ++ p)) ∧
+    (∀ o : Option String, basicProvide none o = [] ∧ basicProvide o none = []) := by
+  refine ⟨rfl, b64_roundtrip _ (utf8_bytesOk _), ?_⟩
+  intro o
+  cases o <;> exact ⟨rfl, rfl⟩
+
+/-- non-vacuity / anchor: `bob:` is `Ym9iOg==` (a one-byte remainder is padded with `==`), it decodes back, and the
+    same text with one `=` missing is refused -/
+example : b64Chars [98, 111, 98, 58] = ['Y', 'm', '9', 'i', 'O', 'g', '=', '='] ∧
+    b64decode ['Y', 'm', '9', 'i', 'O', 'g', '=', '='] = some [98, 111, 98, 58] ∧
+    b64decode ['Y', 'm', '9', 'i', 'O', 'g', '='] = none := by
+  decide
 
 /-- **every poll and every snapshot request carries the provider's metadata** — for every auth configuration (no
     provider, basic with / without credentials, any custom provider), every sequence of polls and pushes, and every
